@@ -77,11 +77,9 @@ func FocusParams(t *rapid.T, seedTag, shape string, excl func(string) bool) sim.
 		}
 		p.ExtraVals = u.Range(2, 3, "extra")
 	}
-	if excl != nil && excl(ExclLastEligible) {
+	if p.ValPower[0] < 700000 && (p.Frankenstein != 0 || shape == "gov") && excl != nil && excl(ExclLastEligible) {
 		// the anchor validator (index 0) stays electable under every option value a history can reach
-		if p.ValPower[0] < 700000 && (p.Frankenstein != 0 || shape == "gov") {
-			p.ValPower[0] = 700000 + p.ValPower[0]%7
-		}
+		p.ValPower[0] = 700000 + p.ValPower[0]%7
 	}
 	p.Evidence.BlockVotesDiff = int64(u.Range(2, 5, "bvd"))
 	p.Evidence.MinVotesRequired = int64(u.Range(1, int(p.Evidence.BlockVotesDiff), "mvr"))
@@ -912,7 +910,7 @@ func (f *Focus) DrawEnv(txs []txgen.Tx) sim.BlockSpec {
 // ProtectAnchor removes the anchor validator from the absentee list when the last-eligible
 // exclusion is active.
 func ProtectAnchor(w *hist.World, spec *sim.BlockSpec, excl func(string) bool) {
-	if excl == nil || !excl(ExclLastEligible) || w.C.Last == nil || w.C.Last.Size() == 0 {
+	if excl == nil || w.C.Last == nil || w.C.Last.Size() == 0 {
 		return
 	}
 	anchor := AnchorAddr(w)
@@ -922,9 +920,10 @@ func ProtectAnchor(w *hist.World, spec *sim.BlockSpec, excl func(string) bool) {
 		if i < 0 {
 			i += w.C.Last.Size()
 		}
-		if Addr(w.C.Last.Validators[i].Address.Bytes()) != anchor {
-			keep = append(keep, ai)
+		if Addr(w.C.Last.Validators[i].Address.Bytes()) == anchor && excl(ExclLastEligible) {
+			continue
 		}
+		keep = append(keep, ai)
 	}
 	spec.Absent = keep
 }
